@@ -48,6 +48,9 @@ def cases(rng, budget, widx, nworkers, tier):
             a = gen.rand_flat(rng, "L")
             b = ("L", K.add(a[1], K.mul(a[2], rng.choice((0, 1, -2, gen.F(1, 2))))), K.mul(a[2], rng.choice((1, -1, 3, gen.F(1, 2)))))
             label = "coincident"
+        if ka == "L" and rng.random() < 0.04:
+            a = ("L", (gen.F(0), gen.F(0), gen.F(0)), a[2])          # supported by the origin itself
+            label = "line-supported-by-the-origin"
         yield C.maybe_hist({"a": a, "b": b, "label": label, "ls": rng.getrandbits(30)}, rng)
         if ka == "L" and rng.random() < 0.25:
             # operands the library derived itself: perpendiculars of two parallel planes given with differently scaled
